@@ -318,6 +318,51 @@ def clause_d(repo, chk):
         chk.instance("D-bound", "bound(a=%s, b=%s) uses the transform of its kind `%s`: %s" % (av, bv, table[kind], same))
         if not same:
             chk.violation("D-bound", init.key, "zero-limit:a=%s,b=%s" % (av, bv), "Bound(%s, %s) chooses the transform `%s` instead of `%s`: a limit of exactly 0 is treated as absent, so a transform-based minimiser can cross it" % (av, bv, so0.attrs.get("func"), table[kind]), file=VAR, line=init.lineno)
+    # get_func: the limits that enter the transform are the limits given - zero included
+    gf = bcls.methods["get_func"]
+
+    def sympy_calls(tr_, d_, args_, kwargs_, n_):
+        last_ = d_.split(".")[-1]
+        if last_ == "sympify":
+            loc_ = kwargs_.get("locals")
+            if isinstance(loc_, dict):
+                return sp.sympify(args_[0], locals={str(k_): sp.sympify(v_) for k_, v_ in loc_.items()})
+            return sp.sympify(args_[0])
+        if last_ == "diff":
+            return sp.diff(*args_)
+        if last_ == "solve":
+            return [sp.Symbol("INV")]
+        return NotImplemented
+
+    def sympy_methods(tr_, obj_, name_, args_, kwargs_):
+        if name_ == "diff":
+            return sp.diff(obj_, *args_)
+        if name_ == "subs":
+            return obj_.subs(*[{sp.Symbol(str(k_)): sp.sympify(v_) for k_, v_ in a_.items()} if isinstance(a_, dict) else a_ for a_ in args_])
+        return NotImplemented
+
+    for av, bv in ((sp.Integer(1), sp.Integer(2)), (sp.Integer(0), sp.Integer(2)), (sp.Integer(-2), sp.Integer(0)), (sp.Integer(0), None), (None, sp.Integer(0)), (sp.Float(0.0), sp.Float(2.5)), (None, None)):
+        kind = ("set" if av is not None else None, "set" if bv is not None else None)
+        so1 = SelfObj(bcls, {"lower": av, "upper": bv, "func": table[kind]})
+        tr1 = Translator(repo, hooks={"allow_attr_store": True, "numeric_call": sympy_calls, "sym_method": sympy_methods}, max_depth=2)
+        try:
+            got = tr1.call_fn(gf, [], self_obj=so1)
+        except Unmodelled as e:
+            raise AnalysisError("Bound.get_func not interpretable for a=%s, b=%s: %s" % (av, bv, e))
+        f_got = got[0] if isinstance(got, tuple) and got else None
+        sub = {}
+        if av is not None:
+            sub[sp.Symbol("a")] = av
+        if bv is not None:
+            sub[sp.Symbol("b")] = bv
+        f_want = sp.sympify(table[kind]).subs(sub)
+        try:
+            same = f_got is not None and sp.simplify(sp.sympify(f_got) - f_want) == 0
+        except (TypeError, sp.SympifyError):
+            same = False
+        chk.instance("D-bound", "Bound(%s, %s).get_func substitutes the given limits into `%s`: %s" % (av, bv, table[kind], same))
+        if not same:
+            chk.violation("D-bound", gf.key, "limits:a=%s,b=%s" % (av, bv), "Bound(%s, %s).get_func builds the transform %s, expected %s: a limit of exactly 0 is replaced by the `no limit` stand-in, so the fit coordinate maps outside the bound (and the inverse / slope belong to another interval)" % (av, bv, f_got, f_want), file=VAR, line=gf.lineno)
     # a > b must be rejected
     try:
         run_init(sp.Integer(2), sp.Integer(1))
@@ -356,7 +401,7 @@ def clause_d(repo, chk):
     chk.instance("D-bound", "Bound.__init__ rejects a > b: %s" % guard)
     if not guard:
         chk.violation("D-bound", init.key, "order-guard", "Bound no longer rejects lower > upper (the two-sided transform would be decreasing)", file=VAR, line=init.lineno)
-    chk.require_count("D-bound", 5)
+    chk.require_count("D-bound", 12)
 
 
 # --------------------------------------------------------------------------- (e)
@@ -569,7 +614,10 @@ def clause_h(repo, chk):
         groups0 = [["a", "b"], ["e", "f"]]
         train0 = ["a", "d", "g", "h"]  # b, f: tied non-heads; c fixed; e: head of a fixed tie
         so = SelfObj(vm, {"variables": dict(var), "same_list": [list(g) for g in groups0], "trainable_vars": list(train0), "complex_vars": {}, "bnd_dic": {}})
-        tr = Translator(repo, hooks={"allow_attr_store": True}, max_depth=3)
+        # a variable object is truthy iff its value is non-zero: the fixed ones sit at 0.0 (a legitimate value to fix
+        # at), the free ones at non-zero values - code that asks for the truth of a variable gets that answer
+        zero_valued = {var["c"], var["e"]}
+        tr = Translator(repo, hooks={"allow_attr_store": True}, max_depth=3, where_policy=lambda v_, tr_: (v_ not in zero_valued) if isinstance(v_, sp.Symbol) else None)
         try:
             tr.call_fn(fn, [list(names)], self_obj=so)
         except Unmodelled as e:
@@ -667,6 +715,7 @@ def run(repo, chk, tier):
     clause_pairs(repo, chk)
     clause_apply_order(repo, chk)
     clause_getmask(repo, chk)
+    clause_setall(repo, chk)
     clause_h(repo, chk)
     # tied parameters stay equal through the post-fit standardisation; bounded parameters get the bound transform's own
     # slopes in every wrapper (shared with C08 / C07)
@@ -676,3 +725,43 @@ def run(repo, chk, tier):
     clause_std(repo, chk)
     check_transform_wrappers(repo, chk)
     bound_chain(repo, chk)
+
+
+def clause_setall(repo, chk, rule="V-setall"):
+    """every value handed to set_all is written - zero included"""
+    from ..sym import SelfObj, Translator, Unmodelled
+
+    chk.rule(rule, "VarsManager.set_all interpreted with `set` as a recorder, for a dictionary and for a list of values that contain 0.0 and 0 (a coupling switched off, a phase of zero, a parameter at a bound of 0) and for both values of val_in_fit: every (name, value) handed in is written once, in order, with the flag passed on - a value of exactly zero is a value like any other")
+    vm = repo.cls("%s::VarsManager" % VAR)
+    fn = vm.methods.get("set_all")
+    st = vm.methods.get("set")
+    if fn is None or st is None:
+        raise AnalysisError("anchor vanished: VarsManager.set_all / set")
+    names = ["a", "b", "c", "d"]
+    vals = [sp.Rational(3, 2), sp.Float(0.0), sp.Integer(0), sp.Integer(-2)]
+    bad = None
+    n = 0
+    for as_dict in (True, False):
+        for flag in (False, True):
+            written = []
+
+            def rec(tr_, args_, kwargs_, node_):
+                b_ = Translator.bound_args(st, args_, kwargs_)
+                written.append((b_.get("name"), b_.get("value"), bool(b_.get("val_in_fit", True))))
+                return None
+
+            so = SelfObj(vm, {"trainable_vars": list(names), "variables": {k: sp.Symbol("V_" + k) for k in names}, "bnd_dic": {}, "pre_trans": {}, "complex_vars": {}})
+            tr = Translator(repo, hooks={"allow_attr_store": True, st.key: rec}, max_depth=2)
+            arg = dict(zip(names, vals)) if as_dict else list(vals)
+            try:
+                tr.call_fn(fn, [arg], {"val_in_fit": flag}, self_obj=so)
+            except Unmodelled as e:
+                raise AnalysisError("VarsManager.set_all cannot be interpreted (%s, val_in_fit=%s): %s" % ("dict" if as_dict else "list", flag, e))
+            n += 1
+            want = [(k, v, flag) for k, v in zip(names, vals)]
+            got = [(k, v, f_) for k, v, f_ in written]
+            if (len(got) != len(want) or any(g[0] != w[0] or sp.sympify(g[1]) != w[1] or g[2] != w[2] for g, w in zip(got, want))) and bad is None:
+                bad = "set_all(%s, val_in_fit=%s) writes %s, expected %s" % ("{a: 3/2, b: 0.0, c: 0, d: -2}" if as_dict else "[3/2, 0.0, 0, -2]", flag, got, want)
+    chk.oblige(rule, "set_all writes every value handed in (dict / list, val_in_fit on / off; zeros included): %d calls" % n, bad is None)
+    if bad:
+        chk.violation(rule, fn.key, "skipped-value", "%s - a parameter given as exactly zero keeps its old value: the model does not hold the parameters it was given (set_params, loading a result file, the write-back of a minimiser)" % bad, file=VAR, line=fn.lineno)
